@@ -293,7 +293,13 @@ func c04Wire() *explore.Scenario {
 				var stream []byte
 				var pm string
 				if mode == 0 {
-					stream, _, _, pm = firstFlight(cfg, id, nil)
+					// connection 2 reaches the handshake through BuildHandshakeStateWithoutSession first
+					var prep func(u *tls.UConn) error
+					if conn == 2 {
+						prep = func(u *tls.UConn) error { return u.BuildHandshakeStateWithoutSession() }
+						sr.SpecialOnce = true // the re-application draws its GREASE seed from the stream
+					}
+					stream, _, _, pm = firstFlight(cfg, id, prep)
 				} else if mode == 2 {
 					stream, _, _, pm = firstFlight(cfg, tls.HelloCustom, func(u *tls.UConn) error {
 						sp, err := tls.UTLSIdToSpec(id)
